@@ -32,7 +32,7 @@ CASE_DEADLINE = 120
 D = Decimal
 SKIP_ATTRS = {'lexdata', 'lexlen', 'ast', 'lexmatch'}
 
-VALID = ['1 + 2', 'x = 1\nx + 1', 'x = 1;y = 2;x + y', '[1,\n 2,\n 3] | len', 'f = v => v * 2\nf(4)', '{"a": 1,\n "b": [2, 3]}["b"][0]', 'len("abc") # c\n', 'a = [1, 2]\npush(a, 3)\na',
+VALID = ['x = 5\nx', 'len = 3\nlen', 'y = [1]\ny', 'sum([1, 2])', 'zz = 1',  '1 + 2', 'x = 1\nx + 1', 'x = 1;y = 2;x + y', '[1,\n 2,\n 3] | len', 'f = v => v * 2\nf(4)', '{"a": 1,\n "b": [2, 3]}["b"][0]', 'len("abc") # c\n', 'a = [1, 2]\npush(a, 3)\na',
          'x = 1\n\n\ny = x\ny', 'map([1, 2, 3], v => v + 1)', '"s" + 1.50', 'n = 3\nn *= 2\nn', 'd = {}\nd["k"] = 1\nd', 'sorted([3, 1, 2])\n', 'not True or 1 in [1]', '1 if 2 > 1 else 3',
          'x.upper() if False else hs', '0.1 + 0.2 == 0.3', '1 / 3', 'round(2.675, 2)', 'cnt += 1\ncnt', 'acc | push(len(acc))\nacc', 'g = n => n + cnt\ng(1)', 'g(2)', 'f(1)', 'f(2)',
          'f = n => [n, n + 1, n + 2] | map(v => v * 2)', 'len(x)', 'str(1) + "!"', 'max(1, 2)', '[len("ab"), max(3, 4)]', 'x | len', '2 ** 0.5', '(1 / 3) * 3',
@@ -69,6 +69,9 @@ def fresh_names(template):
         base.update({'cnt': D(10), 'acc': [D(1)], 'f': (lambda v: 'host-f')})
     elif template == 4:
         base.update({'max': D(10), 'str': (lambda v: 'S'), 'len': D(3)})
+    elif template == 5:
+        import types
+        return types.MappingProxyType(base)      # a names mapping the program cannot write to
     return base
 
 
@@ -80,7 +83,7 @@ def norm_value(v, depth=0):
         return 'D:' + str(v)
     if isinstance(v, (list, tuple)):
         return [type(v).__name__] + [norm_value(x, depth + 1) for x in v]
-    if isinstance(v, dict):
+    if isinstance(v, dict) or type(v).__name__ == 'mappingproxy':
         return {str(k): norm_value(x, depth + 1) for k, x in v.items()}
     if isinstance(v, (str, int, float, bool)) or v is None:
         return '%s:%r' % (type(v).__name__, v)
@@ -184,7 +187,7 @@ def gen_history(r):
         entry = r.choice(['parse', 'eval', 'eval', 'list_names', 'list_names_partial'])
         if kind == 'names-text' and entry in ('parse', 'eval') and r.random() < 0.7:
             entry = r.choice(['list_names', 'list_names_partial'])
-        names_mode = r.choice(['fresh0', 'fresh1', 'fresh2', 'fresh3', 'fresh4', 'persistA', 'persistA', 'persistB'])
+        names_mode = r.choice(['fresh0', 'fresh1', 'fresh2', 'fresh3', 'fresh4', 'fresh5', 'persistA', 'persistA', 'persistB'])
         budget = r.choice([None, None, 30, 1000])
         calls.append((kind, entry, src, names_mode, budget, r.randint(0, 3)))
     return calls
@@ -204,7 +207,7 @@ def cases(ctx):
 
 
 def key_of(entry, src, names, budget, k):
-    return repr((entry, src, norm_value(names) if entry == 'eval' else None, budget if entry == 'eval' else None, k if entry == 'list_names_partial' else None))
+    return repr((entry, src, type(names).__name__, norm_value(names) if entry == 'eval' else None, budget if entry == 'eval' else None, k if entry == 'list_names_partial' else None))
 
 
 def run_case(case, ctx):
@@ -222,6 +225,7 @@ def run_case(case, ctx):
         pre_names = None
         if entry == 'eval':
             pre_names = {kk: (vv if callable(vv) else copy.deepcopy(vv)) for kk, vv in names.items()}
+            read_only = type(names).__name__ == 'mappingproxy'
         stale = entry == 'eval' and any(callable(v) and id(v) in ctx.M1.lambdas for v in names.values())
         # ---- the call under history
         M7.begin()
@@ -273,6 +277,9 @@ def run_case(case, ctx):
             fn = None
             if entry == 'eval':
                 fn = {kk: (vv if callable(vv) else copy.deepcopy(vv)) for kk, vv in pre_names.items()}
+                if read_only:
+                    import types
+                    fn = types.MappingProxyType(fn)
             ctx.cur = {'first': None, 'foreign': 0}
             ref = do_call(F, entry, src, fn, budget, k)
             if not stale:
